@@ -1628,7 +1628,8 @@ class Exec:
                 ret = rets[0]["val"] if len(vals) == 1 else ("unk", "multi-return:%s" % name)
             out.append({"e": "inlined", "name": name, "usr": usr, "args": args, "this": this, "body": body,
                         "ret": ret, "l": line, "status": st, "fn": callee})
-            if st == "exit":
+            if st == "exit" and not rets:
+                # (a callee with an early `return` before its fatal tail returns normally on that path)
                 out.append({"e": "exit", "how": name, "l": line})
             return ret
         val = self.hooks.call_value(self, e, name, args, this)
